@@ -11,7 +11,7 @@ ENVP = [M, M + "/ptrify", M + "/common", M + "/transform", M + "/parse", M + "/t
         "github.com/fatih/structtag", "strings", "unicode/utf8", "strconv", "go/token", "text/scanner", "bytes", "io"]
 FLAGP = ENVP + [M + "/sources/flag/flaghelper", "flag", "sort"]
 HELP = [M + "/parse", "strings", "unicode/utf8", "strconv", "go/token", "text/scanner", "bytes", "io", "sort"]
-EZP = ENVP + [M + "/sourcewrap", M + "/sources/env", "sort"]
+EZP = ENVP + [M + "/sourcewrap", M + "/sources/env", M + "/sources/flag", M + "/sources/flag/flaghelper", "flag", "sort"]
 TFP = [M + "/ptrify", M + "/common", M + "/parse", M + "/tagformat/caseconversion", M + "/helper", "github.com/fatih/structtag", "sort",
        "strings", "unicode/utf8", "strconv", "go/token", "text/scanner", "bytes", "io"]
 TEXT = ["strings", "unicode/utf8", "strconv", "text/scanner", "bytes", "io", "go/token"]
@@ -63,7 +63,7 @@ CHECKS = {
         },
         "runs": [seq("HarnessC01T1", ["c01-end"]), seq("HarnessC01T2", ["c01-end"]), seq("HarnessC01T3L1", ["c01-end"], ["quick"]),
                  seq("HarnessC01T4L1", ["c01-end"], ["quick"]), seq("HarnessC01T5", ["c01-end"]), seq("HarnessC01T6", ["c01-end"]),
-                 seq("HarnessC01T7", ["c01-end"]), seq("HarnessC01T3", ["c01-end"], ["thorough"]), seq("HarnessC01T4", ["c01-end"], ["thorough"]),
+                 seq("HarnessC01T7", ["c01-end"]), conc("HarnessC02History2", ["c02-hist-end"]), seq("HarnessC01T3", ["c01-end"], ["thorough"]), seq("HarnessC01T4", ["c01-end"], ["thorough"]),
                  seq("HarnessC01T2L3", ["c01-end"], ["thorough"]), seq("HarnessC01T7L3", ["c01-end"], ["thorough"])],
         "bounds": {"quick": "7 types (scalars/durations, skipped fields in every position, nested+pointer+embedded structs, slices/maps/arrays, user pointers, text-unmarshalable value+pointer, deep nesting); 2 layers (1 for the two biggest types); slices len<=2, maps <=1 entry; all scalar values",
                    "thorough": "same corpus, 2 layers everywhere, 3 layers on the small types"},
@@ -152,7 +152,7 @@ CHECKS = {
             "design_ref": "DESIGN.md §4 C08",
         },
         "runs": [conc("HarnessC08Quick", ["c08-end"]), conc("HarnessC08Seq2", ["c08-end"]), conc("HarnessC08DoubleUnregister", ["c08-double-unreg-end"]),
-                 conc("HarnessC08LateCalls", ["c08-late-end"]), conc("HarnessC08BlockedCallback", ["c08-blocked-end"], ["thorough"]),
+                 conc("HarnessC08LateCalls", ["c08-late-end"]), conc("HarnessC08BlockedCallback", ["c08-blocked-end"]), conc("HarnessC08BlockingCancel", ["c08-blocking-cancel-end"]),
                  conc("HarnessC08Thorough", ["c08-end"], ["thorough"])],
         "bounds": {"quick": "2 callers x 1 op, 2 sequential ops, 8-op alphabet, delay on/off; all schedules", "thorough": "2+1 ops; blocked-callback run of 67 updates"},
         "outside": "longer operation sequences; more than 2 callers",
@@ -294,6 +294,7 @@ CHECKS = {
         "runs": [
             {"entry": M + "/sourcewrap.HarnessC20TransformStatic", "pkgs": SW, "must_reach": ["c20-static-end"], "instrument": [M, M + "/sourcewrap"], "validate": 0},
             {"entry": M + "/sourcewrap.HarnessC20TransformWatch", "pkgs": SW, "must_reach": ["c20-watch-end"], "instrument": [M, M + "/sourcewrap"], "validate": 0},
+            {"entry": M + "/sourcewrap.HarnessC20Decoder", "pkgs": SW, "must_reach": ["c20-decoder-end"]},
             {"entry": M + "/sourcewrap.HarnessC20Blank", "pkgs": SW, "must_reach": ["c20-blank-end", "c20-blank-done"], "instrument": [M, M + "/sourcewrap"], "validate": 0},
         ],
         "bounds": {"quick": "1 wrapped source, 3 updates, all int64 values; Blank: 3 operations", "thorough": "same"},
